@@ -47,13 +47,8 @@ def scratch() -> Path:
 
 
 def new_dir(name: str) -> Path:
-    d = scratch() / name
-    n = 0
-    while d.exists():
-        n += 1
-        d = scratch() / f"{name}.{n}"
-    d.mkdir(parents=True)
-    return d
+    """A fresh directory under the scratch root (thread-safe)."""
+    return Path(tempfile.mkdtemp(prefix=name.replace("/", "_") + ".", dir=str(scratch())))
 
 
 # --------------------------------------------------------------------------- TLC
@@ -485,3 +480,46 @@ def pmap(func, items: Sequence[Any], procs: int = NCPU, chunk: int = 200) -> lis
     with ctx.Pool(procs) as pool:
         parts = pool.map(_pmap_worker, [(func, c) for c in chunks])
     return [y for part in parts for y in part]
+
+
+def simulate_cases(
+    module: str,
+    cfg: str,
+    want: int,
+    *,
+    depth: int,
+    seed: int,
+    check: Optional["Check"] = None,
+    timeout: int = 1800,
+    first_num: Optional[int] = None,
+) -> list[Any]:
+    """Distinct cases emitted (PrintT(ToJson(..)) invariant) by `tlc -simulate`.
+
+    In simulation mode TLC evaluates the invariants on every successor it generates at each step (not
+    only on the one it picks), so one behaviour yields many emitted cases; `num` is therefore grown
+    geometrically until at least `want` distinct cases were seen (or 4 rounds), then a seeded sample of
+    `want` is returned."""
+    import random
+
+    uniq: dict[str, Any] = {}
+    num = first_num or max(2, want // 200)
+    for rnd_i in range(4):
+        res = require_ok(
+            run_tlc(module, cfg, workers=1, simulate=f"num={num}", depth=depth, seed=seed + 7919 * rnd_i, timeout=timeout),
+            f"{module} simulate",
+        )
+        if check is not None:
+            check.add_tlc(f"simulate:{cfg}:num={num}", res)
+        for c in emitted_json(res):
+            uniq.setdefault(canon(c), c)
+        if len(uniq) >= want:
+            break
+        num *= 6
+    cases = list(uniq.values())
+    if len(cases) > want:
+        cases = random.Random(seed).sample(cases, want)
+    if check is not None:
+        check.cov["simulated_cases"] = check.cov.get("simulated_cases", 0) + len(cases)
+    if not cases:
+        raise MachineryError(f"simulation of {module}/{cfg} produced no cases")
+    return cases
